@@ -277,7 +277,7 @@ def group_is_waited(tu, f, e):
         for f2 in tu.functions.values():
             if f2.get('recid') != f['recid'] or f2['dep'] or tu.cfg(f2) is None:
                 continue
-            for b, i, x in tu.cfg(f2).stmts():
+            for x in tu.walk(X.fn_decl(tu, f2) or {}):       # including closures written inside the method
                 if x.get('kind') == 'CXXMemberCallExpr' and X.RX_TBB_WAIT.match(tu.sd(x).get('q', '')):
                     sd, obj, args = tu.call_parts(x)
                     if obj is not None and member_of_this(tu, obj) == m:
@@ -885,6 +885,14 @@ def check_result_protocol(ctx, W, o, joiner):
     # ---- the flag is an atomic
     n += 1
     fct = (path_field(tu, rec, flag) or {}).get('ct', '?')
+    rct = X.clean_t((path_field(tu, rec, res) or {}).get('ct', ''))
+    res_trivial = None
+    for ta in rec.get('targs', []) or []:
+        if X.clean_t(ta.get('t', '')) == rct and 'trivial_dtor' in ta:
+            res_trivial = bool(ta['trivial_dtor'])
+    if res_trivial is None:
+        rr = X.record_of_type(tu, rct)
+        res_trivial = bool(rr[0].get('trivial_dtor')) if rr else bool(re.match(r'^(unsigned |signed )?(bool|char|short|int|long|long long|float|double)$|\*$', rct))
     file = tu.fn_file(o.ctor)
     if re.match(r'^std::atomic<(bool|char|signed char|unsigned char|short|unsigned short|int|unsigned int|long|unsigned long)>$', fct):
         ctx.ok(R3, inst0 + ': completion flag `%s`' % flagn, 'type %s' % fct, tu.fn_loc(o.ctor))
@@ -1018,6 +1026,36 @@ def check_result_protocol(ctx, W, o, joiner):
                 if lhs is not None and mpath(tu, lhs, prefix) == flag:
                     ev[x['id']] = ('flag-store', x, ('store', lhs, rhs, 'plain'))
                     continue
+            if k == 'CXXNewExpr' and tu.sd(x).get('nplace', 0) >= 1:
+                tgt = None
+                for pid0 in tu.sd(x).get('pargs', []):
+                    pa = tu.node(pid0)
+                    y0 = X.addr_of(tu, pa) if pa is not None else None
+                    if y0 is None and pa is not None:       # std::addressof(member)
+                        c0 = tu.strip(pa, casts=True)
+                        if c0 is not None and c0.get('kind') == 'CallExpr' and tu.sd(c0).get('q') == 'std::addressof':
+                            y0 = tu.call_parts(c0)[2][0]
+                    if y0 is not None and mpath(tu, y0, prefix) == res:
+                        tgt = y0
+                if tgt is not None:
+                    init = tu.node(tu.sd(x).get('init'))
+                    src = tu.kids(init)[0] if init is not None and init.get('kind') in X.CONSTRUCTS and len(tu.kids(init)) == 1 else init
+                    ev[x['id']] = ('res-placement', x, src)
+                    for y1 in tu.walk(tgt):
+                        store_nodes[y1.get('id')] = x['id']     # the address-of operand is part of the construction, not an access
+                    continue
+            if k in ('CXXMemberCallExpr', 'CallExpr') and tu.kids(x):
+                cal = tu.strip(tu.kids(x)[0])
+                objx = None
+                if cal is not None and cal.get('kind') == 'CXXPseudoDestructorExpr' and tu.kids(cal):
+                    objx = tu.kids(cal)[0]
+                elif k == 'CXXMemberCallExpr' and '::~' in tu.sd(x).get('q', ''):
+                    objx = tu.call_parts(x)[1]
+                if objx is not None and mpath(tu, objx, prefix) == res:
+                    ev[x['id']] = ('res-destroy', x)
+                    for y1 in tu.walk(objx):
+                        store_nodes[y1.get('id')] = x['id']
+                    continue
             if k == 'MemberExpr' and mpath(tu, x, prefix) == res:
                 ev[x['id']] = ('res-access', x)
         decl = X.fn_decl(tu, fn)
@@ -1028,6 +1066,10 @@ def check_result_protocol(ctx, W, o, joiner):
                     if c is not None and (c.get('id') in results or decl_ref(tu, c) in results):
                         results.add(x['id'])
         for nid, e in list(ev.items()):
+            if e[0] == 'res-placement':
+                c = core(tu, e[2]) if e[2] is not None else None
+                if not (c is not None and (c.get('id') in results or decl_ref(tu, c) in results or decl_ref(tu, c) in resparams)):
+                    und.append('the value constructed into `%s` at %s is not recognised as the result of the task function' % (resn, tu.loc(e[1])))
             if e[0] == 'res-store':
                 c = core(tu, e[2])
                 if not (c is not None and (c.get('id') in results or decl_ref(tu, c) in results or decl_ref(tu, c) in resparams)):
@@ -1066,18 +1108,34 @@ def check_result_protocol(ctx, W, o, joiner):
             x = ev.get(e[1])
             if x is None or e[1] in store_nodes:
                 return [st]
-            inv, sto, flg, unk = st
+            inv, sto, flg, unk, dead = st
             if x[0] == 'invoke':
-                return [(min(2, inv + 1), sto, flg, unk)]
+                return [(min(2, inv + 1), sto, flg, unk, dead)]
+            if x[0] == 'res-destroy':
+                if dead:
+                    problems.append(('result-destroyed-twice', 'the result `%s` is destroyed explicitly at %s although it holds no live '
+                                     'object on this path' % (resn, tu.loc(x[1])), tu.loc(x[1])))
+                return [(inv, sto, flg, unk, True)]
+            if x[0] == 'res-placement':
+                if not dead and not res_trivial:
+                    problems.append(('result-constructed-over-live-object', 'the closure placement-news the result into `%s` at %s, but '
+                                     'that member is a live, already (default-)constructed object: its lifetime is ended without running '
+                                     'its destructor, so whatever its default constructor acquired (buffer, handle, registration) is '
+                                     'never released, once per AsyncTask. Assign (`%s = ...`) or destroy the old object first'
+                                     % (resn, tu.loc(x[1]), resn), tu.loc(x[1])))
+                if flg:
+                    problems.append(('result-after-flag', 'the result `%s` is constructed at %s after the completion flag `%s` has been set'
+                                     % (resn, tu.loc(x[1]), flagn), tu.loc(x[1])))
+                return [(inv, min(2, sto + 1), flg, unk, False)]
             if x[0] == 'call':
                 return sorted(run_fn(x[2], x[3], st, depth + 1, x[5], x[4]))
             if x[0] == 'unknown':
-                return [(inv, sto, flg, True)]
+                return [(inv, sto, flg, True, dead)]
             if x[0] == 'res-store':
                 if flg:
                     problems.append(('result-after-flag', 'the result `%s` is stored at %s after the completion flag `%s` has been set: '
                                      'finished() can be true and get() can return before the value is there' % (resn, tu.loc(x[1]), flagn), tu.loc(x[1])))
-                return [(inv, min(2, sto + 1), flg, unk)]
+                return [(inv, min(2, sto + 1), flg, unk, dead)]
             if x[0] == 'res-access':
                 if flg:
                     problems.append(('result-after-flag', 'the result `%s` is accessed at %s after the completion flag `%s` has been set'
@@ -1106,13 +1164,16 @@ def check_result_protocol(ctx, W, o, joiner):
                         problems.append(('flag-before-result', 'the completion flag `%s` is set at %s on a path where the result `%s` has not '
                                          'been stored yet: finished() becomes true and get() returns a value that is still being written'
                                          % (flagn, tu.loc(x[1]), resn), tu.loc(x[1])))
-                return [(inv, sto, 1, unk)]
+                return [(inv, sto, 1, unk, dead)]
             return [st]
         exits, _r = X.exit_states(g, [st0], transfer)
         summaries[skey] = exits or {st0}
         return summaries[skey]
-    exits = run_fn(op, captured, (0, 0, 0, False))
-    for inv, sto, flg, unk in sorted(exits):
+    exits = run_fn(op, captured, (0, 0, 0, False, False))
+    for inv, sto, flg, unk, dead in sorted(exits):
+        if dead:
+            problems.append(('result-left-destroyed', 'on some path the closure destroys `%s` explicitly and finishes without constructing '
+                             'a new object in it: the member is destroyed a second time with the AsyncTask' % resn, tu.fn_loc(op)))
         if unk and (inv != 1 or sto == 0 or not flg):
             und.append('the closure calls a function that is not followed (it receives `this` or the task function); the '
                        'invoke / store / publish protocol cannot be established')
@@ -1206,6 +1267,9 @@ class Joiner:
         self.W = W
         self.memo = {}
         self.reason = {}
+        self.kind = {}
+        self.isolated = {}
+        self.unfollowed_join = {}
         self.busy = set()
 
     def starts(self, o):
@@ -1230,6 +1294,9 @@ class Joiner:
         g = tu.cfg(fn)
         W = self.W
 
+        depth_l = [0]
+        isolated, unfollowed = [], []
+
         def joined_by(x):
             got = set()
             if x.get('kind') == 'CXXMemberCallExpr':
@@ -1249,6 +1316,33 @@ class Joiner:
                         got.add(i)
                     if e['kind'] == 'thread-member' and q == X.THREAD_JOIN and m == e['member']:
                         got.add(i)
+            if x.get('kind') in ('CallExpr', 'CXXOperatorCallExpr') and depth_l[0] < 3:
+                sd, obj, args = X.call_parts(tu, x)
+                q = sd.get('q', '')
+                lams = []
+                if x.get('kind') == 'CXXOperatorCallExpr' and q.endswith('::operator()') and obj is not None:
+                    l0 = X.find_lambda(tu, obj)
+                    if l0 is not None:
+                        lams.append((l0, 'called'))
+                elif x.get('kind') == 'CallExpr':
+                    for a in args:
+                        l0 = X.find_lambda(tu, a)
+                        if l0 is not None:
+                            lams.append((l0, 'isolate' if RX_TBB_ISOLATE.match(q) else 'passed:' + q))
+                for l0, how in lams:
+                    inner = set()
+                    depth_l[0] += 1
+                    for y in tu.walk(tu.kids(l0)[-1] if tu.kids(l0) else {}):
+                        if y.get('kind') in ('CXXMemberCallExpr', 'CallExpr'):
+                            inner |= joined_by(y)
+                    depth_l[0] -= 1
+                    if inner and how == 'called':
+                        got |= inner
+                    elif inner and how == 'isolate':
+                        got |= inner                 # when it returns the task has finished (ordering); whether it returns: see below
+                        isolated.append((x, inner))
+                    elif inner:
+                        unfollowed.append('%s (%s)' % (how[7:], tu.loc(x)))
             if x.get('kind') == 'CallExpr':
                 sd, obj, args = tu.call_parts(x)
                 if W.joinfn.get(sd.get('q', '')):
@@ -1327,7 +1421,15 @@ class Joiner:
                 return out
             exits, res = X.exit_states(g, [frozenset()], inner_transfer, refine2)
         ok = bool(exits) and all(len(st) == len(need) for st in exits)
-        if not ok:
+        if isolated:
+            x0, inner0 = isolated[0]
+            self.isolated[key] = ('the wait is performed inside tbb::this_task_arena::isolate (%s) while the task was spawned by run() outside '
+                                'of that isolated region: a thread waiting in an isolated region only executes tasks spawned inside it, so '
+                                'the waiter can never run its own task and depends on another free thread -- with one thread, or when every '
+                                'thread waits like this (nested AsyncTasks), get()/wait()/the destructor never return' % tu.loc(x0))
+        elif not ok and unfollowed:
+            self.unfollowed_join[key] = sorted(set(unfollowed))
+        if not ok and not isolated:
             # witness: a path through the function that reaches its end without the join
             why = 'no join on any path'
             for st, via in sorted(res.exits, key=repr):
@@ -1343,7 +1445,7 @@ class Joiner:
                         ('after the test(s) ' + ', '.join(steps[-3:])) if steps else 'straight through',
                         (' it returns at ' + rets[0]) if rets else ' it reaches the end of the function')
                     break
-            self.reason[key] = why
+            self.reason.setdefault(key, why)
         self.memo[key] = ok
         return ok
 
@@ -1485,6 +1587,13 @@ def check_wait_before_release(ctx, W, o, J, verdicts=None):
         verdicts.append((rn, 'dtor', bool(unjoined or problems)))
         return 1
     how = describe_starts(o, J)
+    for x, callee in J.starter_calls(o, d):
+        J.impl_join(o, callee)
+        iso = J.isolated.get(('impl', id(tu), callee['id']))
+        if iso and any(e['kind'] == 'tbb-run' for e in J.starts(o)):
+            ctx.violation(R4, '[%s] %s' % (tu.config, callee['q'].replace('rkcommon::tasking::', '')) + W.tag,
+                          '%s: %s' % (short_name(callee['q']), iso), tu.fn_loc(callee),
+                          key='%s|%s|%s|wait-isolated-from-spawn' % (R4, tu.fn_file(callee), short_name(callee['q'])))
     if not unjoined and not problems:
         ctx.ok(R4, inst, 'the task (started: %s) is joined on every path before any member it touches, or the '
                'object, is released' % how, tu.fn_loc(d), nontrivial=not J.trivially_joined(o))
@@ -1503,6 +1612,12 @@ def check_wait_before_release(ctx, W, o, J, verdicts=None):
     calls = J.starter_calls(o, d)
     blamed = False
     for x, callee in calls:
+        if not J.impl_join(o, callee) and J.unfollowed_join.get(('impl', id(tu), callee['id'])):
+            ctx.undecided(R4, '[%s] %s' % (tu.config, callee['q'].replace('rkcommon::tasking::', '')) + W.tag,
+                          'the join is written inside a closure handed to %s, which is not followed'
+                          % ', '.join(J.unfollowed_join[('impl', id(tu), callee['id'])]), tu.fn_loc(callee))
+            return 1
+    for x, callee in calls:
         if not J.impl_join(o, callee):
             blamed = True
             ctx.violation(R4, '[%s] %s' % (tu.config, callee['q'].replace('rkcommon::tasking::', '')) + W.tag,
@@ -1511,7 +1626,8 @@ def check_wait_before_release(ctx, W, o, J, verdicts=None):
                           'after the owner has been destroyed, and get() can read the result before it is written'
                           % (short_name(callee['q']), short_name(d['q']), how, J.reason.get(('impl', id(tu), callee['id']), '')),
                           tu.fn_loc(callee),
-                          key='%s|%s|%s|no-backend-join' % (R4, tu.fn_file(callee), short_name(callee['q'])),
+                          key='%s|%s|%s|%s' % (R4, tu.fn_file(callee), short_name(callee['q']),
+                                               J.kind.get(('impl', id(tu), callee['id']), 'no-backend-join')),
                           path=['%s: destructor calls %s' % (tu.loc(x), tu.show(x))])
     if not blamed:
         for kind, text, loc in sorted(set(problems)):
@@ -1550,6 +1666,7 @@ def check_wait_before_release(ctx, W, o, J, verdicts=None):
 #  R-C02-5 async(): one heap packaged_task, invoked once then deleted by the scheduled closure only
 # ================================================================================================
 RX_PTASK = re.compile(r'^std::packaged_task<')
+RX_TBB_ISOLATE = re.compile(r'^tbb::(\w+::)*isolate$')
 
 
 def moved_lvalue_params(tu, f):
@@ -2703,6 +2820,31 @@ def holder_path(tu, obj):
     return X.access_path(tu, c) if c is not None else None
 
 
+def waiter_fields(tu):
+    """{(record id, field id): name}: members whose value decides how many sleepers SemaphoreSignal posts (the waiter count)"""
+    out = {}
+    for f in tu.functions.values():
+        if f['dep'] or tu.cfg(f) is None:
+            continue
+        for b, i, x in tu.cfg(f).stmts():
+            if x.get('kind') == 'CallExpr' and tu.sd(x).get('q') == SEM_SIGNAL:
+                sd, obj, args = tu.call_parts(x)
+                if len(args) >= 2:
+                    srcs, seenv = [args[1]], set()
+                    while srcs:
+                        e0 = srcs.pop()
+                        for y in tu.walk(e0):
+                            if y.get('kind') == 'MemberExpr' and 'fi' in tu.sd(y) and member_of_this(tu, y):
+                                out.setdefault((f.get('recid'), member_of_this(tu, y)), y.get('name'))
+                            if y.get('kind') == 'DeclRefExpr':
+                                vd = tu.node(y.get('referencedDecl', {}).get('id'))
+                                if vd is not None and vd.get('kind') == 'VarDecl' and vd['id'] not in seenv and \
+                                        tu.enclosing_fn(vd) is not None and tu.kids(vd):
+                                    seenv.add(vd['id'])
+                                    srcs.append(tu.kids(vd)[-1])
+    return out
+
+
 def classify_scheduler(ctx, W):
     """from the enkiTS sources: the pipe member, the functions that drain all queued tasks, and the functions that can
     discard the pipes without having drained them -> (sched record q, drains{q}, undrained{q: (fn, delete node)}) or None"""
@@ -2743,6 +2885,7 @@ def classify_scheduler(ctx, W):
         else:
             out.append(c)
     drains = set()
+    drain_loops = {}
     for f in tu.functions.values():
         if f['dep'] or tu.cfg(f) is None or f.get('recid') != srecid:
             continue
@@ -2771,10 +2914,10 @@ def classify_scheduler(ctx, W):
             terms = []
             positive_terms(cond, terms)
             for c in terms:
-                if c.get('kind') == 'DeclRefExpr' and c.get('referencedDecl', {}).get('id') in derived:
+                if (c.get('kind') == 'DeclRefExpr' and c.get('referencedDecl', {}).get('id') in derived) or \
+                        (c.get('kind') in X.CALLS and mentions(c, runners)):
                     drains.add(f['q'])
-                elif c.get('kind') in X.CALLS and mentions(c, runners):
-                    drains.add(f['q'])
+                    drain_loops.setdefault(f['q'], []).append((f, L, cond))
     # ---- functions that may discard the pipes without a preceding drain (fixpoint over calls on this)
     undrained = {}
     always_drain = set(drains)
@@ -2808,7 +2951,46 @@ def classify_scheduler(ctx, W):
                 undrained.setdefault(f['q'], (f, hit[0]))
             elif exits and all(exits) and f['q'] not in always_drain:
                 always_drain.add(f['q'])
-    return dict(rec=srec, recid=srecid, pipe=pname, pfield=pfield, drains=drains, always_drain=always_drain, undrained=undrained)
+    # a drain is complete only when nobody is executing a task any more (a running task may schedule follow-ups after the pipes
+    # were seen empty): some loop of the draining function has to wait until the workers are parked (waiter count)
+    wf = waiter_fields(tu)
+    idle_blind = {}
+    for q, loops in drain_loops.items():
+        f0 = loops[0][0]
+        aware = False
+        for L in tu.walk(X.fn_decl(tu, f0)):
+            k = L.get('kind')
+            ks = tu.kids(L)
+            cond = ks[-2] if k == 'WhileStmt' and len(ks) >= 2 else ks[1] if k == 'DoStmt' and len(ks) >= 2 else None
+            if k == 'ForStmt':
+                cs = [y for y in ks[:-1] if 'type' in y and y.get('type', {}).get('qualType') == 'bool']
+                cond = cs[0] if cs else None
+            if cond is None:
+                continue
+            srcs, seenv = [cond], set()
+            while srcs and not aware:
+                e0 = srcs.pop()
+                for y in tu.walk(e0):
+                    if y.get('kind') == 'MemberExpr' and (f0.get('recid'), member_of_this(tu, y)) in wf:
+                        aware = True
+                    if y.get('kind') == 'CXXMemberCallExpr' and X.is_this_expr(tu, tu.call_parts(y)[1] or {}):
+                        c2 = tu.callee_fn(y)
+                        if c2 is not None and tu.cfg(c2) is not None and any(
+                                z.get('kind') == 'MemberExpr' and (f0.get('recid'), member_of_this(tu, z)) in wf
+                                for z in tu.walk(X.fn_decl(tu, c2) or {})):
+                            aware = True
+                    if y.get('kind') == 'DeclRefExpr':
+                        vd = tu.node(y.get('referencedDecl', {}).get('id'))
+                        if vd is not None and vd.get('kind') == 'VarDecl' and vd['id'] not in seenv and tu.enclosing_fn(vd) is not None:
+                            seenv.add(vd['id'])
+                            if tu.kids(vd):
+                                srcs.append(tu.kids(vd)[-1])
+                            for b2, i2, z in tu.cfg(f0).stmts():
+                                if z.get('kind') == 'BinaryOperator' and z.get('opcode') == '=' and decl_ref(tu, tu.kids(z)[0]) == vd['id']:
+                                    srcs.append(tu.kids(z)[1])
+        if not aware:
+            idle_blind[q] = loops[0]
+    return dict(rec=srec, recid=srecid, pipe=pname, pfield=pfield, idle_blind=idle_blind, waiter=sorted(set(wf.values())), drains=drains, always_drain=always_drain, undrained=undrained)
 
 
 def check_drain_before_discard(ctx, W, tus, info, verdicts=None):
@@ -2894,6 +3076,15 @@ def check_scheduler_teardown(ctx, W, info):
     """inside enkiTS: the destructor never discards undrained pipes; report the classification"""
     tu = W.scheduler
     n = 0
+    for q, (f0, L, cond) in sorted(info['idle_blind'].items()):
+        n += 1
+        ctx.violation(R8, '[INTERNAL] %s: drain loop' % q + W.tag,
+                      'the loop that drains the queued tasks (condition `%s`, %s) ends as soon as the pipes are empty; no loop of %s waits '
+                      'until the worker threads are idle (waiter count `%s`). A task a worker is still executing may schedule follow-up '
+                      'tasks after the pipes were seen empty: the caller then stops the threads and deletes the pipes, and those functions '
+                      'are never executed (their task objects and closures are never released)'
+                      % (tu.show(cond), tu.loc(cond), short_name(q), '/'.join(info['waiter']) or '?'), tu.loc(cond),
+                      key='%s|%s|%s|drain-ignores-running-workers' % (R8, tu.fn_file(f0), r7_name(f0)))
     for f in tu.functions.values():
         if f['dep'] or tu.cfg(f) is None or f.get('recid') != info['recid'] or not f.get('dtor'):
             continue
